@@ -27,11 +27,30 @@ func convert(b []byte) (out []byte, err error) {
 		return nil, err
 	}
 
+	// Sscanf stops at the first character that is no hex digit: everything must have been consumed
+	if len(out)*2 != len(b) {
+		return nil, fmt.Errorf("malformed hex data %q", string(b))
+	}
+
 	return out, nil
 
 }
 
 func convertDelta(b []byte) (deltams int32, err error) {
+	// only an optional minus sign followed by digits (Sscanf would stop at the first other character)
+	digits := b
+	if len(digits) > 0 && digits[0] == '-' {
+		digits = digits[1:]
+	}
+	if len(digits) == 0 {
+		return -1, fmt.Errorf("malformed delta %q", string(b))
+	}
+	for _, c := range digits {
+		if c < '0' || c > '9' {
+			return -1, fmt.Errorf("malformed delta %q", string(b))
+		}
+	}
+
 	_, err = fmt.Sscanf(string(b), "%d", &deltams)
 	if err != nil {
 		return -1, err
@@ -54,6 +73,10 @@ func Read(rd io.Reader) (out []byte, deltams int32, err error) {
 		}
 
 		if b == ' ' {
+			if deltaRead {
+				// a second separator: the line is malformed
+				return nil, -1, fmt.Errorf("malformed line: more than one separator")
+			}
 			deltams, err = convertDelta(deltaBf)
 			if err != nil {
 				return
